@@ -7,8 +7,8 @@ The bookkeeping invariant `CInv` THROUGH the queries of CompositeFrontend, so th
   to joins the world) and the child's query.
 * `reabsorb_noop`: `_reabsorb_solver(m)` does nothing when `m` knows no variable or is the child its least variable points to -
   which is the case whenever the names of the query belong to one child at most (`solverForNames_one`).
-* `ReabsorbKeeps`: the statement "`_reabsorb_solver` re-establishes `CInv`" at the state in which it is called, as a `def`:
-  it is what is still open (see design_notes/C12.md, round 6) for queries whose names span several children.
+* `ReabsorbKeeps`: the statement "`_reabsorb_solver` re-establishes `CInv`" at the state in which it is called, as a `def`;
+  proved in CompositeSplit / CompositeUpdate / CompositeReplace.lean (`reabsorbKeeps`).
 * `compQuery_keeps` / `compTruth_keeps`: the value queries and `is_true` / `is_false` keep `CInv` - unconditionally when all
   names of the query are one variable, else given `ReabsorbKeeps`.
 -/
@@ -98,7 +98,8 @@ theorem reabsorb_noop (s : CSt) (m : Nat)
     · rw [h] at hv; exact absurd rfl hv
     · simp only [hv, Bool.false_eq_true, ↓reduceIte, h, beq_self_eq_true, pure, CM.pure]
 
-/-- **what is open**: `_reabsorb_solver(m)`, called with the invariant in force on a temporary child `m` that holds exactly the
+/-- **`_reabsorb_solver` re-establishes the invariant** (the statement; proved as `reabsorbKeeps`, CompositeReplace.lean):
+`_reabsorb_solver(m)`, called with the invariant in force on a temporary child `m` that holds exactly the
 constraints of the children owning its variables (all of them satisfiable: `_ensure_sat` has run), re-establishes the invariant.
 Both branches: `len(parts) == len(old)` (`update` of the old children: cached models whose key set is the child's variable set,
 and the parts' exhausted markers) and the replacement of the children by the parts. -/
